@@ -13,7 +13,7 @@ export SEED_SRC="$TMP/repo" VCGO_BIN="$TMP/vcgo"
 ls seeded | grep -E '^C[0-9]+-[a-z]$' > "$TMP/list"
 run_one() {
   s="$1"; prop="${s%%-*}"
-  [ "$s" = "C02-a" ] && prop=C13   # the same change as C13-a (KMP matcher): decided by C13's bounded stand-in
+  :
   r=$(scripts/seed_check.sh "$s" "$prop" 2>&1 | tail -1)
   echo "$s $r"
 }
